@@ -28,7 +28,7 @@ NAMES = ["a", "b"]
 VERSIONS = ["1.9", "1.10", "1.10.0", "2"]
 CONTENTS = ["s1.js", "s2.js"]
 KINDS = [(n, v, c) for n in NAMES for v in VERSIONS for c in CONTENTS]
-PLACEMENTS = ["flat", "nested", "mixed", "inline"]
+PLACEMENTS = ["flat", "nested", "mixed", "inline", "void", "shared-tags", "expansion"]
 
 
 def place(deps, placement):
@@ -41,6 +41,23 @@ def place(deps, placement):
         return TagList(*[div(div("t", d)) for d in deps])
     if placement == "inline":
         return div(*[span(d, "x") for d in deps])
+    if placement == "void":
+        return div(*[Tag("input" if i % 2 else "br", d, _add_ws=False) for i, d in enumerate(deps)])
+    if placement == "shared-tags":
+        # every holder tag object occurs twice in the tree (same object, two positions): first all
+        # holders in order, then all of them again inside a nested div
+        holders = [span(d) for d in deps]
+        return div(*holders, div("again", *holders))
+    if placement == "expansion":
+        from ..spec import Tagif
+        # dependencies only exist in the expansions of tagifiable objects
+        class Holder:
+            def __init__(self, d):
+                self.d = d
+
+            def tagify(self):
+                return Tag("div", "h", self.d)
+        return div(*[Holder(d) for d in deps])
     # mixed depths, same document order
     items = []
     for i, d in enumerate(deps):
@@ -62,6 +79,25 @@ def fn_seq(case):
     tree = place(deps, placement)
     exp = [p for (_, _, p) in resolve([(n, v, i) for i, (n, v, c) in enumerate(kinds)])]
     viols = []
+    if placement == "expansion":
+        # only render() can see them; compared by marker
+        r = tree.render()["dependencies"]
+        ri = [int(str(d.head[0])[5:-3]) if d.head else None for d in r]
+        if ri != exp:
+            viols.append(("resolve:render-expansions", "render()['dependencies'] of dependencies carried by "
+                          "expansions is not the resolved list", {"observed_indexes": ri, "expected_indexes": exp}))
+        return (len(set(k[0] for k in kinds)) < len(kinds), tuple(exp), viols, 1)
+    if placement == "shared-tags":
+        raw = tree.get_dependencies(dedup=False)
+        if [id(d) for d in raw] != [id(d) for d in deps] * 2:
+            viols.append(("collect:shared-tag-objects", "get_dependencies(dedup=False) dropped dependencies of a tag "
+                          "object that occurs twice in the tree", {"observed": len(raw), "expected": 2 * len(deps)}))
+        got = tree.get_dependencies()
+        gi = [next((i for i, d in enumerate(deps) if d is g), None) for g in got]
+        if gi != exp:
+            viols.append(("resolve:shared-tag-objects", "resolution differs when holder tags are shared",
+                          {"observed_indexes": gi, "expected_indexes": exp}))
+        return (True, tuple(exp), viols, 2)
     got = tree.get_dependencies()
     gi = [next((i for i, d in enumerate(deps) if d is g), None) for g in got]
     if gi != exp:
@@ -122,6 +158,10 @@ def validation_cases():
         cases.append(["bad-item", field, "list-pos0"])
         cases.append(["bad-item", field, "list-pos1"])
         cases.append(["bad-item", field, "list-of-list"])
+        cases.append(["bad-item", field, "empty-dict"])
+        cases.append(["bad-item", field, "list-empty-dict"])
+        cases.append(["bad-item", field, "empty-str"])
+        cases.append(["bad-item", field, "zero"])
         for k in REQ[field]:
             cases.append(["missing-key", field, k, "single"])
             cases.append(["missing-key", field, k, "list-pos0"])
@@ -164,7 +204,8 @@ def fn_validation(case):
         f, how = case[1], case[2]
         good = copy.deepcopy(ITEM[f])
         val = {"alone-str": "a.js", "alone-int": 5, "list-pos0": ["a.js", good],
-               "list-pos1": [good, "a.js"], "list-of-list": [[good]]}[how]
+               "list-pos1": [good, "a.js"], "list-of-list": [[good]], "empty-dict": {},
+               "list-empty-dict": [good, {}], "empty-str": "x", "zero": 0}[how]
         must_reject(**{f: val})
     elif kind == "missing-key":
         f, k, how = case[1], case[2], case[3]
